@@ -374,6 +374,69 @@ func c09Huge(c *fw.Ctx, idx int) {
 	c09Judge(c, t, m, g, kind, "")
 }
 
+// c09Giants: single parts of 2^20 .. 2^23 (+-3) vertices whose measures are
+// known in closed form and are sums of small integers, so that every partial sum
+// is exact in float64 whatever the order of summation: a unit-step line (length
+// = vertices-1) and a k x 1 rectangle with a vertex at every unit step of its long
+// sides (area k, perimeter 2k+2).  A measure that splits a long part, sums it in
+// blocks or in parallel has its seams here.
+func c09Giants(c *fw.Ctx, idx int) {
+	exps := []int{20, 21, 22, 23}
+	n := 1<<exps[idx%4] + []int{-3, -1, 0, 1, 2, 3, 5, 6}[(idx/4)%8]
+	layout := []geom.Layout{geom.XY, geom.XYZ}[(idx/32)%2]
+	stride := layout.Stride()
+	// line of n vertices going east in unit steps
+	flat := make([]float64, n*stride)
+	for i := 0; i < n; i++ {
+		flat[i*stride] = float64(i)
+		flat[i*stride+1] = 7
+		if stride > 2 {
+			flat[i*stride+2] = float64(i % 13)
+		}
+	}
+	c.SetInput(map[string]any{"shape": "unit-step line going east", "vertices": n, "layout": layout.String()})
+	var length, mlength float64
+	if c.Guard("panic", func() {
+		length = geom.NewLineStringFlat(layout, flat).Length()
+		mlength = geom.NewMultiLineStringFlat(layout, flat, []int{len(flat)}).Length()
+	}) {
+		return
+	}
+	c.Eval(2)
+	c.Count("giant_lines")
+	c.Distinct(fmt.Sprintf("giant-line/%d/%s", n, layout))
+	if length != float64(n-1) || mlength != float64(n-1) {
+		c.Fail("length-error", "unit-step line of %d vertices: LineString.Length() = %v, MultiLineString.Length() = %v, exact length %d (every partial sum is an integer below 2^53)", n, length, mlength, n-1)
+		return
+	}
+	// rectangle ring of n vertices (n odd: 2k+3), counter-clockwise
+	if n%2 == 0 {
+		n++
+	}
+	k := (n - 3) / 2
+	ring := make([]float64, n*stride)
+	put := func(i int, x, y float64) { ring[i*stride], ring[i*stride+1] = x, y }
+	for i := 0; i <= k; i++ {
+		put(i, float64(i), 0)
+		put(k+1+i, float64(k-i), 1)
+	}
+	put(n-1, 0, 0)
+	c.SetInput(map[string]any{"shape": "k x 1 rectangle, counter-clockwise, a vertex at every unit step of the long sides", "vertices": n, "k": k, "layout": layout.String()})
+	var area, parea, plen float64
+	if c.Guard("panic", func() {
+		area = geom.NewLinearRingFlat(layout, ring).Area()
+		pg := geom.NewPolygonFlat(layout, ring, []int{len(ring)})
+		parea, plen = pg.Area(), pg.Length()
+	}) {
+		return
+	}
+	c.Eval(3)
+	c.Count("giant_rings")
+	if math.Abs(area) != float64(k) || math.Abs(parea) != float64(k) || plen != float64(2*k+2) {
+		c.Fail("area-error", "%d x 1 rectangle of %d vertices: LinearRing.Area() = %v, Polygon.Area() = %v (exact %d), Polygon.Length() = %v (exact %d)", k, n, area, parea, k, plen, 2*k+2)
+	}
+}
+
 func cloneGeom(t geom.T) geom.T {
 	switch x := t.(type) {
 	case *geom.Point:
@@ -620,6 +683,7 @@ func init() {
 		Classes: []fw.Class{
 			{Name: "measures", Quick: 150000, Thorough: 5000000, Run: c09Run},
 			{Name: "huge-parts", Quick: 16, Thorough: 400, Chunk: 1, Run: c09Huge},
+			{Name: "giants", Quick: 32, Thorough: 64, Chunk: 1, Run: c09Giants},
 		},
 		Require: []string{"area_compared", "length_compared", "additivity_checked", "multipolygon_with_empty_polygon", "empty_component_before_nonempty", "area_positive_ccw", "area_negative_cw", "area_zero_checked"},
 	})
